@@ -169,6 +169,48 @@ static int p_endpush(void)      /* F16-ENDPUSH: an iterator with nothing left se
     ok += x && !strcmp(x, "z");
     return all_or_none(ok, 3);
 }
+static int p_uniqreset(void)    /* F16-UNIQ-NORESET: uniq / sort of a one-record list reset the iterators as well */
+{
+    hostlist_t h = hostlist_create("a[1-4]");
+    hostlist_iterator_t it;
+    char *x;
+    int ok = 0;
+    if (!h) return 2;
+    it = hostlist_iterator_create(h);
+    hostlist_next(it);
+    hostlist_uniq(h);
+    x = hostlist_next(it);
+    if (!x || (strcmp(x, "a1") && strcmp(x, "a2"))) return 2;
+    ok += !strcmp(x, "a1");
+    hostlist_sort(h);
+    x = hostlist_next(it);
+    if (!x) return 2;
+    ok += !strcmp(x, "a1");
+    return all_or_none(ok, 2);
+}
+static int p_iterdelete(void)   /* F16-DELETE-UNDER-ITERATOR / F16-MULTI: iterators follow a delete inside their record */
+{
+    hostlist_t h = hostlist_create("a[1-9]");
+    hostlist_iterator_t i0, i1;
+    char *x;
+    int k, ok = 0;
+    if (!h) return 2;
+    i0 = hostlist_iterator_create(h);
+    i1 = hostlist_iterator_create(h);
+    for (k = 0; k < 3; k++) hostlist_next(i0);          /* a1 a2 a3 */
+    for (k = 0; k < 6; k++) hostlist_next(i1);          /* a1 .. a6 */
+    hostlist_remove(i0);                                /* a3: the record is split under i1 */
+    x = hostlist_next(i1);
+    ok += x && !strcmp(x, "a7");
+    hostlist_next(i0);                                  /* a4 */
+    hostlist_delete_nth(h, 2);                          /* a4: the record shrinks under i0 (and i1) */
+    x = hostlist_next(i0);
+    ok += x && !strcmp(x, "a5");
+    hostlist_delete_host(h, "a6");                      /* a split under i1, by name */
+    x = hostlist_next(i1);
+    ok += x && !strcmp(x, "a8");
+    return all_or_none(ok, 3);
+}
 /* run a probe in a child: a crash / hang of the child means "recorded defect" (0) */
 static int probe(int (*f)(void))
 {
@@ -221,5 +263,7 @@ int main(void)
     bad |= lean_bool("FIX_D26_CMPTRUNC", probe(p_cmptrunc));
     bad |= lean_bool("FIX_D1_DELETEALL", probe(p_deleteall));
     bad |= lean_bool("FIX_F16_ENDPUSH", probe(p_endpush));
+    bad |= lean_bool("FIX_F16_UNIQRESET", probe(p_uniqreset));
+    bad |= lean_bool("FIX_F16_ITERDELETE", probe(p_iterdelete));
     return bad;
 }
